@@ -85,10 +85,11 @@ def margin_units(nrep, nnon, nunexp=0, states=("AA",), counties=2, cls=True, dis
 class BootStub:
     """replaces BootstrapElectionModel.compute_bootstrap_errors"""
 
-    def __init__(self, ctx, B, tag="", concrete_turnout=True, symbolic_rows=None):
+    def __init__(self, ctx, B, tag="", concrete_turnout=True, symbolic_rows=None, symbolic_mats=None):
         self.ctx, self.B, self.tag = ctx, B, tag
         self.concrete_turnout = concrete_turnout
         self.symbolic_rows = symbolic_rows  # None = every outstanding unit has symbolic margin draws
+        self.symbolic_mats = symbolic_mats  # None = all of e1, e2, yz; else the names of the matrices that stay symbolic
         self.state = None
         self.models = []
         self.inputs = []  # (reporting, nonreporting) frames handed to the bootstrap core, per call
@@ -131,7 +132,7 @@ class BootStub:
         def mat(name, shape):
             a = np.empty(shape, dtype=object if not getattr(c, "concrete", False) else float)
             for idx in np.ndindex(*shape):
-                if rows is not None and idx[0] not in rows:
+                if (rows is not None and idx[0] not in rows) or (self.symbolic_mats is not None and name not in self.symbolic_mats):
                     # concrete draws for this unit (alternating sign, inside I_boot for the concrete turnout draws)
                     val = float((-1) ** (idx[0] + idx[1]) * (300 + 70 * idx[1] + 11 * idx[0] + (37 if name == "e2" else 0)))
                     # (a Sym constant in symbolic mode: numpy's object-dtype round() needs every cell to have .rint)
